@@ -786,6 +786,47 @@ def key_order(ctx, rule='C08.key-order'):
     return res
 
 
+def iterator_overrides(ctx, rule='C08.iterator-overrides'):
+    """`next` is where an iterator of this crate decides what comes next (skipping leaves emptied in the transaction, honouring bounds and filters).  Any other
+    method of `Iterator` / `DoubleEndedIterator` that a crate type overrides (`last`, `nth`, `next_back`, `count` ...) must get its items from `next`: an override that
+    goes to the cursor or the tree itself is a second producer with its own idea of the order"""
+    res = []
+    F = ctx.facts
+    n = 0
+    nov = 0
+    for f in sorted(F.fns, key=lambda g: g.path):
+        if f.kind == 'Closure' or not f.trait or last_seg(f.trait) not in ('Iterator', 'DoubleEndedIterator', 'ExactSizeIterator', 'FusedIterator'):
+            continue
+        n += 1
+        if f.name == 'next' and last_seg(f.trait) == 'Iterator':
+            continue
+        nov += 1
+        # crate-local calls made by the override (closures it creates included)
+        own = [f] + [g for g in F.fns if g.kind == 'Closure' and g.owner is f]
+        direct = []
+        for g in own:
+            for bb, t, target, c in F.call_sites(g):
+                if target is None or target.kind == 'Closure':
+                    continue
+                if target.trait and last_seg(target.trait) in ('Iterator', 'DoubleEndedIterator') and target.self_adt == f.self_adt:
+                    continue        # self.next() and friends
+                direct.append((g.loc(bb), target.qual))
+        if f.name == 'size_hint':
+            direct = []             # a hint does not produce items
+        if direct:
+            res.append(bad(rule, '%s | override produces items without next()' % f.qual,
+                           '%s, an override of a provided iterator method, calls %s at %s instead of getting its items from `next`: it bypasses what `next` does to skip emptied '
+                           'leaves and to honour bounds, so it can disagree with a plain scan' % (f.qual, direct[0][1], direct[0][0]), where=direct[0][0]))
+        else:
+            res.append(ok(rule, '%s gets its items from next()' % f.qual, sites=1))
+    f = floor(rule, 'iterator trait methods implemented by crate types', n, 3)
+    if f:
+        res.append(f)
+    elif nov == 0:
+        res.append(ok(rule, 'the %d iterator impls of the crate define `next` only (every provided method is the std default built on next)' % n, sites=n))
+    return res
+
+
 def run(ctx, tier):
     results = []
     results += bounds_total(ctx)
@@ -802,6 +843,7 @@ def run(ctx, tier):
     results += stack_never_emptied(ctx)
     results += index_agreement(ctx)
     results += key_order(ctx)
+    results += iterator_overrides(ctx)
     import c01
     results += c01.carriers(ctx, rule='C08.carriers')
     return dict(
